@@ -20,13 +20,15 @@
 (*                                                                         *)
 (* Fix* = FALSE is the pinned code.  Known* are the input classes of the   *)
 (* open findings F60 (sticky mask one bit short), F61 (f32 underflow       *)
-(* threshold), F62 (negative shift amount for mantissa = MIN).             *)
+(* threshold), F62 (negative shift amount for the widest mantissas).        *)
 (***************************************************************************)
-EXTENDS Ieee, TLC
-CONSTANTS CB, M, EminNeg, Emax, Style, FixSticky, FixUnderflow, Scope, ELoNeg, EHi
+EXTENDS Ieee, TLC, Json
+CONSTANTS CB, M, EminNeg, Emax, Style, FixSticky, FixUnderflow, Scope,
+          ELoAbs, ELoNegative, EHiAbs, EHiNegative      \* exponent window of the scope
 \* (TLC configuration files have no negative literals)
 Emin == -EminNeg
-ELo == -ELoNeg
+ELo == IF ELoNegative THEN -ELoAbs ELSE ELoAbs
+EHi == IF EHiNegative THEN -EHiAbs ELSE EHiAbs
 
 Fm == Fmt(M, Emin, Emax)
 Fb == M - 1
@@ -103,7 +105,8 @@ KnownQuarter(sg, mag, ex) ==
 KnownUnderflow(sg, mag, ex) ==
   /\ Style = "f32" /\ ~FixUnderflow /\ mag # <<>>
   /\ LET g == Grid(Fm, X(sg, mag, ex)) IN g.fl = Emin - M /\ g.half > 0
-KnownShift(sg, mag, ex) == mag = PowerOfTwo(CB - 1) /\ Branch(mag, ex) = "subpanic"
+\* mantissas of CB-1 or CB significant bits (f32: only MIN) whose value is below the smallest normal
+KnownShift(sg, mag, ex) == BitLen(mag) >= CB - 1 /\ Branch(mag, ex) = "subpanic"
 Known(sg, mag, ex) == KnownQuarter(sg, mag, ex) \/ KnownUnderflow(sg, mag, ex) \/ KnownShift(sg, mag, ex)
 
 \* ------------------------------------------------------------------ scope
@@ -164,4 +167,8 @@ DecodeOKFor(n) ==
 \* evaluated once (in the single initial state with a zero mantissa)
 DecodeCorrect == (Scope = "mini" /\ phase = "pick" /\ mag = <<>> /\ sg = 0)
                  => \A n \in 0..(Pow2N(PW) - 1) : DecodeOKFor(n)
+\* vacuity evidence computed by TLC itself (TLC's -coverage mode does not terminate on the BigNat
+\* library): the set of code branches the scope reaches, printed once
+BranchCover == (phase = "pick" /\ mag = <<>> /\ sg = 0)
+               => PrintT(<<"COVER", ToJson(SetToSeq({Branch(m, e) : m \in Mags, e \in ELo..EHi}))>>)
 =============================================================================
